@@ -249,6 +249,8 @@ func (il *inliner) planRound() (int, []string) {
 				for _, s := range list {
 					if g, ok := il.tryStmt(p, file, s); ok {
 						groups = append(groups, g)
+					} else if g, ok := il.tryUnroll(p, file, s); ok {
+						groups = append(groups, g)
 					}
 				}
 				return true
@@ -1220,4 +1222,183 @@ func (il *inliner) firstCall(p *packages.Package, s ast.Stmt) *ast.CallExpr {
 		return nil
 	}
 	return found
+}
+
+// tryUnroll rewrites `for k, v := range [...]T{e0, e1, ...} { body }` over a short literal of
+// call-free elements into one copy of the body per element, in order. A table-driven loop over
+// a constant list is then the same straight-line code it replaced. `continue` leaves the
+// current copy, `break` leaves them all; a body with labels or goto is left alone.
+func (il *inliner) tryUnroll(p *packages.Package, file string, s ast.Stmt) (inlineGroup, bool) {
+	var g inlineGroup
+	rs, ok := s.(*ast.RangeStmt)
+	if !ok || rs.Tok != token.DEFINE {
+		return g, false
+	}
+	x := rs.X
+	for {
+		if pe, isP := x.(*ast.ParenExpr); isP {
+			x = pe.X
+			continue
+		}
+		break
+	}
+	lit, ok := x.(*ast.CompositeLit)
+	if !ok || len(lit.Elts) == 0 || len(lit.Elts) > 8 {
+		return g, false
+	}
+	at, ok := lit.Type.(*ast.ArrayType)
+	if !ok {
+		return g, false
+	}
+	for _, e := range lit.Elts {
+		if _, keyed := e.(*ast.KeyValueExpr); keyed {
+			return g, false
+		}
+		pure := true
+		ast.Inspect(e, func(n ast.Node) bool {
+			switch y := n.(type) {
+			case *ast.CallExpr, *ast.FuncLit:
+				pure = false
+			case *ast.UnaryExpr:
+				if y.Op == token.ARROW {
+					pure = false
+				}
+			}
+			return pure
+		})
+		if !pure {
+			return g, false
+		}
+	}
+	name := func(e ast.Expr) (string, bool) {
+		if e == nil {
+			return "", true
+		}
+		id, isID := e.(*ast.Ident)
+		if !isID {
+			return "", false
+		}
+		if id.Name == "_" {
+			return "", true
+		}
+		return id.Name, true
+	}
+	kName, ok1 := name(rs.Key)
+	vName, ok2 := name(rs.Value)
+	if !ok1 || !ok2 {
+		return g, false
+	}
+	// break / continue that belong to this loop
+	type red struct {
+		off, end int
+		text     string
+	}
+	il.counter++
+	id := fmt.Sprintf("%d_%d", il.round, il.counter)
+	all := "U__" + id
+	bad := false
+	type br struct {
+		pos, end token.Pos
+		isBreak  bool
+	}
+	var brs []br
+	var walk func(n ast.Node, loopDepth, breakDepth int)
+	walk = func(n ast.Node, loopDepth, breakDepth int) {
+		if n == nil || bad {
+			return
+		}
+		switch y := n.(type) {
+		case *ast.FuncLit:
+			return
+		case *ast.LabeledStmt:
+			bad = true
+			return
+		case *ast.BranchStmt:
+			if y.Label != nil || y.Tok == token.GOTO || y.Tok == token.FALLTHROUGH {
+				if y.Tok != token.FALLTHROUGH {
+					bad = true
+				}
+				return
+			}
+			if y.Tok == token.CONTINUE && loopDepth == 0 {
+				brs = append(brs, br{y.Pos(), y.End(), false})
+			}
+			if y.Tok == token.BREAK && breakDepth == 0 {
+				brs = append(brs, br{y.Pos(), y.End(), true})
+			}
+			return
+		case *ast.ForStmt:
+			walk(y.Body, loopDepth+1, breakDepth+1)
+			return
+		case *ast.RangeStmt:
+			walk(y.Body, loopDepth+1, breakDepth+1)
+			return
+		case *ast.SwitchStmt:
+			walk(y.Body, loopDepth, breakDepth+1)
+			return
+		case *ast.TypeSwitchStmt:
+			walk(y.Body, loopDepth, breakDepth+1)
+			return
+		case *ast.SelectStmt:
+			walk(y.Body, loopDepth, breakDepth+1)
+			return
+		}
+		ast.Inspect(n, func(m ast.Node) bool {
+			if m == n {
+				return true
+			}
+			if _, isStmt := m.(ast.Stmt); isStmt {
+				walk(m, loopDepth, breakDepth)
+				return false
+			}
+			if _, isLit := m.(*ast.FuncLit); isLit {
+				return false
+			}
+			return true
+		})
+	}
+	walk(rs.Body, 0, 0)
+	if bad {
+		return g, false
+	}
+	elt := il.text(file, at.Elt.Pos(), at.Elt.End())
+	base := il.off(rs.Body.Lbrace + 1)
+	var b strings.Builder
+	fmt.Fprintf(&b, "%s: for { ", all)
+	for i, e := range lit.Elts {
+		cl := fmt.Sprintf("C__%s_%d", id, i)
+		text := []byte(il.text(file, rs.Body.Lbrace+1, rs.Body.Rbrace))
+		var reds []red
+		for _, x := range brs {
+			t := "break " + cl
+			if x.isBreak {
+				t = "break " + all
+			}
+			reds = append(reds, red{il.off(x.pos) - base, il.off(x.end) - base, t + il.lineDir(x.end)})
+		}
+		sort.Slice(reds, func(a, c int) bool { return reds[a].off > reds[c].off })
+		for _, r := range reds {
+			text = append(text[:r.off:r.off], append([]byte(r.text), text[r.end:]...)...)
+		}
+		b.WriteString("{ ")
+		if kName != "" {
+			fmt.Fprintf(&b, "%s := %d; _ = %s; ", kName, i, kName)
+		}
+		if vName != "" {
+			fmt.Fprintf(&b, "var %s %s = %s; _ = %s; ", vName, elt, il.text(file, e.Pos(), e.End()), vName)
+		}
+		fmt.Fprintf(&b, "%s: for { ", cl)
+		b.WriteString(il.lineDir(rs.Body.Lbrace + 1))
+		b.Write(bytes.TrimRight(text, " \t"))
+		fmt.Fprintf(&b, "; break %s }}; ", cl)
+	}
+	fmt.Fprintf(&b, "break %s }", all)
+	b.WriteString(il.lineDir(rs.End()))
+	g.file = file
+	g.start, g.end = il.off(rs.Pos()), il.off(rs.End())
+	g.edits = []srcEdit{{off: g.start, end: g.end, text: b.String()}}
+	cp := il.fset.Position(rs.Pos())
+	g.note = fmt.Sprintf("range over a %d-element literal unrolled at %s:%d", len(lit.Elts), filepath.Base(cp.Filename), cp.Line)
+	_ = p
+	return g, true
 }
